@@ -1,0 +1,17 @@
+//go:build verif
+
+package proxy
+
+// Verification export hooks for property C12 (listing during joins and leaves) — /verif/harness/cmd/c12.
+// Thin package-internal wrappers only. Compiled only with `-tags verif`.
+// Player construction and registry calls reuse the C11 hooks (verif_export_c11.go).
+
+// VerifC12ServerPlayersAdd = registeredServer.players.add (what backendPlaySessionHandler.Activated does).
+func VerifC12ServerPlayersAdd(rs RegisteredServer, pl *connectedPlayer) {
+	rs.(*registeredServer).players.add(pl)
+}
+
+// VerifC12ServerPlayersRemove = registeredServer.players.remove (what backendPlaySessionHandler.Disconnected does).
+func VerifC12ServerPlayersRemove(rs RegisteredServer, pl *connectedPlayer) {
+	rs.(*registeredServer).players.remove(pl)
+}
